@@ -61,7 +61,11 @@ func runC09(r *R) {
 				h := []string{"abs.example.com", "shop.example.com:8443"}[w.Draw(2)]
 				scheme := []string{"http", "https"}[w.Draw(2)]
 				absHost[q.URI] = h
-				q.URI = scheme + "://" + h + q.URI
+				ui := ""
+				if w.Draw(3) == 0 {
+					ui = "robot:secret@" // userinfo of the ammo URL is no header of the ammo: nothing is derived from it
+				}
+				q.URI = scheme + "://" + ui + h + q.URI
 			}
 		}
 	}
